@@ -550,6 +550,7 @@ func init() {
 	// relay.run <cfg> <events>  =>  per event: result@t0~t1 bookkeeping
 	ops["relay.run"] = func(a []string) string { return c17Run(a[0], a[1]) }
 	gens["C17"] = genC17
+	gens["C17Pack"] = genC17Pack // the message packer part alone (shared with C18: what lal encodes decodes, any length)
 }
 
 // ---------------------------------------------------------------------------------------------------------------------
